@@ -1,6 +1,6 @@
 # C01 — x86/x64 encoding
 X86_UNITS = ['asmjit/x86/x86assembler.cpp', 'asmjit/x86/x86instdb.cpp', 'asmjit/x86/x86instapi.cpp']
-UNITS = [Unit('core', harness=['h_core.cpp'], repo_units=X86_UNITS), Unit('forms', harness=['h_forms.cpp'], repo_units=X86_UNITS)]
+UNITS = [Unit('core', harness=['h_core.cpp'], repo_units=X86_UNITS), Unit('forms', prescreen=True, harness=['h_forms.cpp'], repo_units=X86_UNITS)]
 HARNESSES = [
     Harness('core', 'h_add_rr64', unwind=17, bounds='all 16x16 register ids', mem_gb=6),
     Harness('core', 'h_vaddps_zmm_mem', unwind=17, bounds='zmm0-31 x zmm0-31 x base 0-15 x index 0-15 (not rsp) x scale 0-3 x all 2^32 disp x k0-7 x z', mem_gb=8, timeout=900),
@@ -11,7 +11,7 @@ _fg = json.load(open(os.path.join(_here, 'forms_gen.json')))
 _st = json.load(open(os.path.join(_here, 'forms_status.json'))) if os.path.exists(os.path.join(_here, 'forms_status.json')) else None
 _sel = [h for h in _fg['harnesses'] if h.get('known') != 'D15' and (_st is None or _st.get(h['fn'], {}).get('accepted_runs', 0) > 0)]
 # Rotation: the family is far larger than one run's budget. quick: ~14 harnesses per seed; thorough: ~220 per seed.
-_NQ = max(1, len(_sel) // 14); _NT = max(1, len(_sel) // 220)
+_NQ = max(1, len(_sel) // 60); _NT = max(1, len(_sel) // 1500)
 for _i, _h in enumerate(_sel):
     HARNESSES.append(Harness('forms', _h['fn'], unwind=17, tiers=('quick', 'thorough'), mem_gb=5, timeout=900, validate_runs=200,
                              rotate=(_i % _NQ, _NQ), rotate_thorough=((_i * 7919) % _NT, _NT), known=_h.get('known'),
